@@ -125,3 +125,19 @@ package driver
 //@   props C10
 //@   pure
 //@   ensures result == lbs
+
+// ---- C20 / C10: reading stored records (util.go, secrets.go, cfgmaps.go)
+
+//@ func decodeRelease
+//@   props C20 C10
+//@   ensures [result-iff-no-error] (err == nil) == (result != nil)
+
+//@ func (*Secrets).Get
+//@   props C20 C10
+//@   requires secrets != nil && secrets.impl != nil
+//@   ensures [result-iff-no-error] err != nil ==> result == nil
+
+//@ func (*ConfigMaps).Get
+//@   props C20 C10
+//@   requires cfgmaps != nil && cfgmaps.impl != nil
+//@   ensures [result-iff-no-error] err != nil ==> result == nil
